@@ -246,6 +246,126 @@ def execute(acc, case):
     acc.sample({"case": case}, limit=3)
 
 
+def execute_restart(acc, case):
+    """The same node object over two connections: what is written on the second one is what was submitted on the second one.
+    Connection 1 ends (local close with the DPA held back, or the peer leaves) with a message handed in at the last moment -
+    accepted or refused, it belongs to connection 1; after start() the stream of connection 2 must consist of the CER, the
+    messages submitted after the restart (each once, in order) and whole base messages - nothing of connection 1."""
+    from bromelia.base import DiameterMessage
+    rng = random.Random(case["seed"])
+    sc = N.Scenario(seed=case["seed"], strategy=case["strategy"], p=case.get("p", 0.05), role="client", apps=[16777251],
+                    lines=case["strategy"] != "rr", max_steps=1_500_000, watchdog=10 ** 6)
+    wit = {"case": case}
+
+    def mk(seq):
+        return DiameterMessage.load(R.encode(N.app_request(seq, size=rng.choice([0, 5, 100]), host=N.LOCAL[0], realm=N.LOCAL[1], dest_realm=N.PEER[1])))[0]
+    with sc:
+        try:
+            if not sc.open():
+                acc.inconclusive.append("node did not reach Open in the set-up phase (case %r)" % (case,))
+                return
+            sc.read_emitted()
+            first = list(range(1, 1 + case["n1"]))
+            for q in first:
+                sc.node.send_message(mk(q))
+            sc.sched.run_until(lambda: sc._have_emitted(len(first)), 5.0, "first-connection-traffic")
+            sc.read_emitted()
+            late = 50
+            late_outcome = "not-tried"
+            if case["end"] == "local-close":
+                sc.node.close()
+                sc.sched.run_until(lambda: sc._have_emitted(1), 5.0, "dpr")
+                dprs = [m for m in sc.read_emitted() if N.name_of(m) == "DPR"]
+                try:
+                    sc.node.send_message(mk(late))
+                    late_outcome = "accepted"
+                except BaseException as ex:
+                    late_outcome = "refused:%s" % type(ex).__name__
+                sc.sched.run_until(lambda: False, rng.choice([0.0, 0.001, 0.01]), "late-gap")
+                if dprs:
+                    sc.inject(R.encode(N.dpa(hbh=dprs[0].hbh, e2e=dprs[0].e2e)))
+            else:
+                # the peer leaves; the application hands in one more message before it has noticed
+                sc.peer_sock.close()
+                try:
+                    sc.node.send_message(mk(late))
+                    late_outcome = "accepted"
+                except BaseException as ex:
+                    late_outcome = "refused:%s" % type(ex).__name__
+            acc.observe("message-handed-in-while-the-connection-ends:%s:%s" % (case["end"], late_outcome))
+            if not sc.sched.run_until(lambda: sc.state() == "Closed" and not [t for t in sc.sched.live_tasks() if t.name != "starter"], 40.0, "closed"):
+                acc.inconclusive.append("first connection did not end (case %r): %s" % (case, sc.sched.blocked_report()))
+                return
+            # ---- connection 2 on the same object
+            sc.sched.run_until(lambda: False, 0.05, "between-connections")
+            sc.peer_sock = sc.node_sock = None
+            sc.emitted_buf = bytearray()
+            sc.start_node()
+            if not sc.connect_transport():
+                acc.inconclusive.append("restart: transport set-up failed (case %r)" % (case,))
+                return
+            sc.sched.run_until(lambda: sc._have_emitted(1), 10.0, "second-cer")
+            sc._pull()
+            frames, _ = R.split_messages(bytes(sc.emitted_buf))
+            cer = None
+            for f in frames:
+                try:
+                    m = R.decode(f)[0]
+                except R.Malformed:
+                    continue
+                if N.name_of(m) == "CER":
+                    cer = m
+                    break
+            if cer is None:
+                acc.violation("restart-no-cer", "the restarted node wrote %d frames and no CER" % len(frames), wit)
+                return
+            sc.inject(R.encode(N.cea(hbh=cer.hbh, e2e=cer.e2e, apps=sc.apps)))
+            if not sc.sched.run_until(lambda: sc.node.is_open(), 20.0, "second-open"):
+                acc.violation("restart-does-not-open", "second connection of the same object does not reach Open: %s" % sc.sched.blocked_report(), wit)
+                return
+            second = list(range(100, 100 + case["n2"]))
+            for q in second:
+                sc.node.send_message(mk(q))
+            sc.quiesce(timeout=8.0)
+            sc._pull()
+            frames, residue = R.split_messages(bytes(sc.emitted_buf))
+            seen, names = [], []
+            for f in frames:
+                try:
+                    m = R.decode(f)[0]
+                except R.Malformed:
+                    names.append("garbled")
+                    continue
+                mk_ = N.marker_of(m)
+                names.append(N.name_of(m) if mk_ is None else "app%d" % mk_)
+                if mk_ is not None:
+                    seen.append(mk_)
+            wit.update({"second_connection_stream": names[:40], "late": late_outcome, "first": first, "second": second})
+            acc.counters["executions"] += 1
+            acc.counters["restart_executions"] += 1
+            stale = [q for q in seen if q not in second]
+            if stale or "garbled" in names or residue:
+                acc.violation("outbound-of-an-earlier-connection-written-after-restart", "the second connection carried %s (submitted on it: %s; message handed in while the first ended: %d, %s)" % (
+                    names[:12], second, late, late_outcome), wit)
+            elif seen != second:
+                acc.violation("outbound-lost" if len(seen) < len(second) else "outbound-duplicated", "second connection: submitted %s, written %s" % (second, seen), wit)
+            elif names[:1] != ["CER"]:
+                acc.violation("outbound-before-the-capabilities-exchange", "the second connection's stream starts with %s" % names[:3], wit)
+            else:
+                acc.counters["messages_written_ok"] += len(seen)
+        except vsched.DeadlockError as ex:
+            acc.violation("deadlock", "deadlock: %s" % ex, dict(wit, stacks=sc.sched.stacks()))
+        except vsched.WallClock as ex:
+            acc.inconclusive.append("%s (case %r)" % (ex, case))
+        except vsched.StepBudget as ex:
+            acc.inconclusive.append("step budget exhausted: %s (case %r)" % (ex, case))
+        cov = sc.coverage()
+    acc.evaluations += 1
+    acc.sigs.add(harness.sig_hash("restart/%s/%s/%s" % (case["end"], case["n1"], cov["schedule"])))
+    for k in ("steps", "switches", "line_events", "partial_sends"):
+        acc.counters[k] += cov[k]
+
+
 def run_batch(b):
     acc = harness.Acc()
     if b.get("real"):
@@ -257,6 +377,8 @@ def run_batch(b):
         if case.get("twin"):
             from bvm import twin
             twin.twin_outbound(acc, case)
+        elif case.get("restart"):
+            execute_restart(acc, case)
         else:
             execute(acc, case)
     return acc
@@ -294,6 +416,10 @@ def plan(tier, seed):
         # a second node object in the same process submits its own messages on its own connection (bvm/twin.py)
         cases.append({"twin": True, "seed": seed * 2741 + i, "strategy": ("rr", "rw")[i % 2], "p": rng.choice([0.02, 0.1]), "submitters": rng.choice([1, 2, 3]),
                       "per": rng.choice([1, 3, 8]), "frag": rng.choice([None, [1, 7, 50], [50, 4096]]), "batch": i % 3 == 0})
+    for i in range(24 if q else 600):
+        # the same node object over two connections (a message handed in while the first one ends)
+        cases.append({"restart": True, "seed": seed * 4001 + i, "end": ("local-close", "peer-disconnect")[i % 2], "n1": rng.choice([1, 3]), "n2": rng.choice([1, 2, 5]),
+                      "strategy": ("rr", "rw")[(i // 2) % 2], "p": rng.choice([0.02, 0.1])})
     for i in range(6 if q else 60):
         # aggregate above the 256 KiB batching limit, handed over in one send_messages() call
         cases.append({"seed": seed * 733 + i, "submitters": rng.choice([1, 2]), "per": 8, "big": True, "batch": True,
@@ -320,7 +446,7 @@ def main(tier, seed):
                           ["node-originated CER/CEA/DWR/DWA/DPR/DPA are legal in the outbound stream when they appear whole at message boundaries",
                            "vnet models Linux TCP send(): accepts a prefix or raises BlockingIOError",
                            "quiescence = all queues and buffers empty and two state-machine ticks without change"],
-                          t0, require_counters=("executions", "steps", "partial_sends", "batch_limit_reached", "inbound_injected_on_partial_write", "messages_submitted_again", "real_loopback_ok", "submitter_parked_while_others_write", "library_thread_parked_while_messages_are_submitted", "twin_node_executions"))
+                          t0, require_counters=("executions", "steps", "partial_sends", "batch_limit_reached", "inbound_injected_on_partial_write", "messages_submitted_again", "restart_executions", "real_loopback_ok", "submitter_parked_while_others_write", "library_thread_parked_while_messages_are_submitted", "twin_node_executions"))
 
 
 def replay(w):
